@@ -25,7 +25,7 @@ PROP = "C10"
 LEVEL = "exploration"
 ENGINE = "EP"
 N = {"quick": 400, "thorough": 8000}
-TIME = {"quick": 45, "thorough": 480}
+TIME = {"quick": 300, "thorough": 480}
 M_STEPS = {"quick": 3, "thorough": 5}
 PAIRS = {"quick": 4, "thorough": 20}
 RULE = ("Twin runs compared bit-for-bit on canonical digests (observation arrays by bytes, reward float.hex, done, trades, holdings, "
